@@ -54,7 +54,7 @@ package connectconformance
 //@ func runTestCasesForServer
 //@   requires wfResults(results) && startServer != nil && client != nil && logPrinter != nil && errPrinter != nil && ctx != nil
 //@   requires (forall i int :: 0 <= i && i < len(testCases) ==> testCases[i] != nil && testCases[i].Request != nil) && len(testCases) <= 1073741824
-//@   modifies prN, held, atomicI32, map[string]testOutcome, sendOK, startedProc, abortN, chanClosed, selWait, wrOut, wireFmt, rdPos, mapof(tracer.Tracer.traces), tracer.Tracer.traces,
+//@   modifies prN, held, atomicI32, map[string]testOutcome, sendOK, startedProc, abortN, chanClosed, selWait, wrOut, wireFmt, rdPos, rdMsgN, mapof(tracer.Tracer.traces), tracer.Tracer.traces,
 //@            map[string]struct{}, map[string]string, []*conformancev1.Header, conformancev1.ClientCompatRequest.*, conformancev1.ServerCompatResponse.*, conformancev1.ClientCompatResponse.*, conformancev1.RawHTTPRequest.Headers
 //@   ensures @stopped startedProc[0] != old(startedProc[0]) && startedProc[0] != nil ==> abortN[startedProc[0].processController] > old(abortN)[startedProc[0].processController] //# a server that was started is asked to stop
 //@   ensures @accounted forall i int :: 0 <= i && i < len(testCases) ==>
